@@ -67,6 +67,12 @@ func Alphabet(p int) []*Def {
 		{Disc: 1, Doc: []string{" first branch"}, Rec: &Def{Kind: Message, Name: n("UoA"), Fields: []Field{{Name: "b", Index: 1, Type: S("uint32")}}}},
 		{Disc: 3, Dep: str("old branch"), Rec: &Def{Kind: Struct, Name: n("UoB"), Fields: []Field{{Name: "c", Type: S("bool")}}}},
 		{Disc: 200, Rec: &Def{Kind: Struct, Name: n("UoC")}}}})
+	add("union-docs-on-later-branches", &Def{Kind: Union, Name: n("Ud"), Branches: []Branch{
+		{Disc: 1, Rec: &Def{Kind: Struct, Name: n("UdA"), Fields: []Field{{Name: "a", Type: S("int32")}}}},
+		{Disc: 2, Doc: []string{" about the second branch"}, Rec: &Def{Kind: Message, Name: n("UdB"), Fields: []Field{{Name: "b", Index: 1, Type: S("string"), Doc: []string{" about b"}}, {Name: "c", Index: 2, Type: S("bool"), Doc: []string{" about c"}}}}},
+		{Disc: 3, Doc: []string{" about the third branch", " in two lines"}, Rec: &Def{Kind: Struct, Name: n("UdC")}},
+		{Disc: 4, Doc: []string{" about the fourth branch"}, Dep: str("fourth is old"), Rec: &Def{Kind: Struct, Name: n("UdD"), Fields: []Field{{Name: "d", Type: S("guid"), Doc: []string{" about d"}}}}}}})
+	add("enum-docs-on-later-members", &Def{Kind: Enum, Name: n("Em"), Members: []Member{{Name: "A", Expr: "1", U: 1}, {Name: "B", Expr: "2", U: 2, Doc: []string{" about B"}}, {Name: "C", Expr: "3", U: 3, Doc: []string{" about C", " second line"}}}})
 	add("empty-deprecation-messages", &Def{Kind: Union, Name: n("Ue"), Branches: []Branch{
 		{Disc: 1, Dep: str(""), Rec: &Def{Kind: Struct, Name: n("UeA"), Fields: []Field{{Name: "a", Type: S("int32"), Dep: str("")}}}},
 		{Disc: 2, Rec: &Def{Kind: Message, Name: n("UeB"), Fields: []Field{{Name: "b", Index: 1, Type: S("string"), Dep: str("")}}}}}})
@@ -94,6 +100,9 @@ func PrecedenceEnums(p int) []*Def {
 	return []*Def{
 		{Kind: Enum, Label: "flags-precedence", Name: n("Fp"), Flags: true, Members: []Member{
 			{Name: "A", Expr: "4 & 6 | 1", U: 5}, {Name: "B", Expr: "1 | 2 << 2", U: 9}, {Name: "C", Expr: "16 >> 1 >> 1", U: 4}, {Name: "D", Expr: "8 | 4 & 12 | 1", U: 13},
-			{Name: "E", Expr: "6 & 3 << 1", U: 6}, {Name: "F", Expr: "(1 | 2) << 3 | 1 & 3", U: 25}, {Name: "G", Expr: "1 << 2 << 3", U: 32}, {Name: "H", Expr: "255 & (7 | 8 << 1) >> 1", U: 11}}},
+			{Name: "E", Expr: "6 & 3 << 1", U: 6}, {Name: "F", Expr: "(1 | 2) << 3 | 1 & 3", U: 25}, {Name: "G", Expr: "1 << 2 << 3", U: 32}, {Name: "H", Expr: "255 & (7 | 8 << 1) >> 1", U: 11},
+			// parenthesised groups holding two operators, in first, middle and last position
+			{Name: "I", Expr: "(64 & 192 | 3) | 256", U: 323}, {Name: "J", Expr: "512 | (64 & 192 | 5) | 1024", U: 1605}, {Name: "K", Expr: "2048 | (1024 >> 2 >> 1)", U: 2176},
+			{Name: "L", Expr: "4096 | (2 | (512 >> 2 >> 1))", U: 4162}, {Name: "M", Expr: "((8192 | 3))", U: 8195}}},
 	}
 }
